@@ -199,7 +199,41 @@ IDENTITY_FORMS = {
     ("ark_ec::AffineRepr", "mul_by_cofactor"): "self",
     ("ark_ec::AffineRepr", "generator"): "generator",
     ("ark_ec::Group", "generator"): "generator",
+    ("ark_ec::Group", "double"): "double",
+    ("ark_ec::AffineRepr", "mul_by_cofactor_inv"): "self",       # COFACTOR_INV = 1
 }
+
+# every function the crate defines in its impls of the arkworks group traits, and the rule that covers it: a method that is not listed is crate
+# code behind a public (generic-code) entry point that no rule interprets
+NATIVE_TRAIT_METHODS = {
+    "ark_ec::Group": {"generator": "FWD identity forms", "double": "FWD identity forms", "double_in_place": "C04 FWD", "mul_bigint": "C05 FWD", "mul_bits_be": "C05 FWD"},
+    "ark_ec::CurveGroup": {"normalize_batch": "C06 PROV / C03 CONV", "into_affine": "FWD identity forms"},
+    "ark_ec::AffineRepr": {"xy": "C08 IDENT (accessor under is_zero)", "x": "accessor", "y": "accessor", "zero": "C08 IDENT", "is_zero": "C08 IDENT", "generator": "FWD identity forms",
+                           "from_random_bytes": "C06 PROV", "mul_bigint": "C05 FWD", "clear_cofactor": "FWD identity forms", "mul_by_cofactor_to_group": "FWD identity forms",
+                           "into_group": "FWD identity forms", "mul_by_cofactor": "FWD identity forms", "mul_by_cofactor_inv": "FWD identity forms"},
+    "ark_ec::ScalarMul": {"batch_convert_to_mul_base": "C06 PROV / C03 CONV"},
+    "ark_ec::VariableBaseMSM": {},
+    "ark_ff::Zero": {"zero": "C08 IDENT", "is_zero": "C08 IDENT"},
+}
+
+
+def check_trait_method_cover(rep, cfg):
+    n = 0
+    for im in cfg.facts["impls"]:
+        td = im.get("trait_def")
+        if td not in NATIVE_TRAIT_METHODS or sort_of(im.get("self", ""))[0] not in POINT_SORTS or "r1cs" in im.get("self", ""):
+            continue
+        for it in im["items"]:
+            if it["kind"] != "Fn":
+                continue
+            n += 1
+            how = NATIVE_TRAIT_METHODS[td].get(it["name"])
+            rep.ob("COVER/%s/<%s as %s>::%s" % (cfg.name, im["self"].split("::")[-1], td.split("::")[-1], it["name"]), how is not None,
+                   ("covered by: %s" % how) if how else
+                   "the crate defines %s::%s for %s, but no rule of the group-law checks interprets this method (an override of an arkworks default, or a new "
+                   "trait method): verify it and add a rule, or drop it" % (td, it["name"], im["self"].split("::")[-1]),
+                   where=im.get("sp"), nontrivial=False)
+    return n
 
 
 def check_identity_forms(rep, cfg, prop):
@@ -218,7 +252,12 @@ def check_identity_forms(rep, cfg, prop):
         out = cfg.run(path)
         got = den(out.value)
         key = "FWD/%s/%s" % (cfg.name, norm_path(path))
-        if what == "self":
+        if what == "double":
+            want = mk("gdbl", operand_terms(b)[0])
+            alt = mk("gadd", operand_terms(b)[0], operand_terms(b)[0])
+            ok = (got is want or got is alt) and not out.unmodelled
+            rep.ob(key, ok, "%s::%s must denote G_DBL(self); got %s" % (tr, name, Tm.show(got, maxdepth=5)), where=cfg.where(path))
+        elif what == "self":
             want = operand_terms(b)[0]
             ok = got is want and not out.unmodelled
             rep.ob(key, ok, "%s::%s must denote its own operand (a change of representation only); got %s" % (tr, name, Tm.show(got, maxdepth=5)), where=cfg.where(path))
